@@ -520,6 +520,22 @@ class RowMajor:
         if k == 1:
             self.N = self.dims[0]
             return
+        if all(c is not None for c in concrete):
+            # all extents concrete: the bijection is plain integer arithmetic with constant strides
+            n_tot = 1
+            for c in concrete:
+                n_tot *= c
+            strides = []
+            acc = 1
+            for c in reversed(concrete):
+                strides.insert(0, acc)
+                acc *= c
+            self.k = -2
+            self.N = z3.IntVal(n_tot)
+            self._ravel2 = lambda idx: z3.Sum([i * z3.IntVal(st) for i, st in zip(idx, strides)])
+            self._unravel2 = lambda p: [(p / z3.IntVal(st)) % z3.IntVal(c) if q > 0 else p / z3.IntVal(st) for q, (st, c) in enumerate(zip(strides, concrete))]
+            ctx.memo.setdefault("products", {})[self.N.hash()] = list(self.dims)
+            return
         if k == 2 and concrete[0] is not None and concrete[0] <= 8 and concrete[1] is None:
             # (T, n) with a small concrete T: the bijection is linear arithmetic, p = t * n + i
             Tn, n = concrete[0], self.dims[1]
